@@ -1,0 +1,34 @@
+//go:build verif
+// +build verif
+
+package bal_slb
+
+import (
+	"github.com/bfenetworks/bfe/bfe_balance/backend"
+)
+
+// Hooks for the out-of-tree verification harness of property C03 (build tag verif).  Add-only.
+
+// VerifC03Backend returns the handle of the backend with the given AddrInfo (nil if absent).
+func (brr *BalanceRR) VerifC03Backend(addrInfo string) *backend.BfeBackend {
+	brr.Lock()
+	defer brr.Unlock()
+	for _, b := range brr.backends {
+		if b.backend.AddrInfo == addrInfo {
+			return b.backend
+		}
+	}
+	return nil
+}
+
+// VerifC03SetRaw sets weight and current of the backend with the given AddrInfo, without x100 scaling.
+func (brr *BalanceRR) VerifC03SetRaw(addrInfo string, weight int, current int) {
+	brr.Lock()
+	defer brr.Unlock()
+	for _, b := range brr.backends {
+		if b.backend.AddrInfo == addrInfo {
+			b.weight = weight
+			b.current = current
+		}
+	}
+}
